@@ -22,12 +22,15 @@
 EXTENDS Integers, Sequences, FiniteSets, TLC
 
 CONSTANTS Cons,        \* set of consumer names (strings)
-          Pkts,        \* sequence of packet kinds: "sps" "pps" "key" "non" "aud"
+          Media,       \* "h264" | "h265" (RTP packets, media/cache/h264cache.go, hevccache.go) | "flv" (FLV tags, flvcache.go)
+          Pkts,        \* sequence of packet kinds: header kinds (see HdrOrder), "key", "non", "aud"
           CacheGop,    \* cache_gop configuration
           MaxQ,        \* backlog limit (1000 in the code)
           Stoppers,    \* consumers for which a stop:c process exists
           WithCloser,  \* whether the closer process exists
+          Replace,     \* the closer is media.Regist of a successor: closes this stream only if it has no consumer then
           Panics,      \* consumers whose Consume panics on its first packet
+          ClosePanics, \* ... and whose Close panics as well (the exit path is cut short after consumer.Close())
           FixWake,     \* Close wakes the consumer through the queue lock (Push(nil)) instead of a bare Signal
           FixAttach,   \* startConsume re-checks the stream status after registering
           FixCount,    \* Add / Remove / RemoveAndCloseAll are serialised; count moves with the map
@@ -70,19 +73,26 @@ obs == <<delivered, tclosed, cached, sentAll, lo, hi, stopLate, withheld, hist>>
 vars == <<pc, status, cache, map, count, q, closedF, disc, gitem, lk, pi, prange, crange, cur, obs>>
 
 Kind(i) == Pkts[i]
-IsVideo(i) == Kind(i) # "aud"
 KeyFlag(i) == Kind(i) = "key"            \* return value of CachePack
 
-(* ---- cache (media/cache/h264cache.go) ------------------------------------ *)
+(* ---- caches (media/cache/h264cache.go, hevccache.go, flvcache.go) ----------- *)
+(* header packets: parameter sets (RTP) / metadata and sequence headers (FLV); the caches keep the
+   latest of each kind and replay them in this order                                             *)
+HdrOrder == CASE Media = "h264" -> <<"sps", "pps">>
+              [] Media = "h265" -> <<"vps", "sps", "pps">>
+              [] OTHER -> <<"meta", "vsh", "ash">>
+HdrKinds == {HdrOrder[i] : i \in 1..Len(HdrOrder)}
+(* the RTP caches look at video-channel packets only; the FLV cache keeps audio tags in the GOP *)
 CachePack(c, i) ==
-  CASE Kind(i) = "aud" -> c
-    [] Kind(i) = "sps" -> [c EXCEPT !.sps = i]
-    [] Kind(i) = "pps" -> [c EXCEPT !.pps = i]
+  CASE Kind(i) \in HdrKinds -> [c EXCEPT !.hdr[Kind(i)] = i]
+    [] Kind(i) = "aud" /\ Media # "flv" -> c
     [] Kind(i) = "key" -> IF CacheGop THEN [c EXCEPT !.gop = <<i>>] ELSE c
     [] OTHER -> IF CacheGop /\ c.gop # <<>> THEN [c EXCEPT !.gop = Append(@, i)] ELSE c
-EmptyCache == [sps |-> 0, pps |-> 0, gop |-> <<>>]
-Snapshot(c) == (IF c.sps # 0 THEN <<c.sps>> ELSE <<>>) \o (IF c.pps # 0 THEN <<c.pps>> ELSE <<>>)
-               \o (IF CacheGop THEN c.gop ELSE <<>>)
+EmptyCache == [hdr |-> [k \in HdrKinds |-> 0], gop |-> <<>>]
+RECURSIVE HdrSnap(_, _)
+HdrSnap(c, n) == IF n > Len(HdrOrder) THEN <<>>
+                 ELSE (IF c.hdr[HdrOrder[n]] # 0 THEN <<c.hdr[HdrOrder[n]]>> ELSE <<>>) \o HdrSnap(c, n + 1)
+Snapshot(c) == HdrSnap(c, 1) \o (IF CacheGop THEN c.gop ELSE <<>>)
 
 (* ---- queue.SyncQueue ------------------------------------------------------ *)
 (* Push: lock, append, Signal.  A consumer goroutine blocked in cond.Wait wakes,
@@ -220,7 +230,7 @@ JoinAdd(c) ==
 SpawnPc(cf) == IF cf THEN "exit.begin" ELSE "loop.checked"
 Finish(p, kind, c, pcs, cf) ==
   CASE kind = "stop" -> /\ pc' = [pcs EXCEPT ![p] = "done"] /\ tclosed' = tclosed
-    [] kind = "exit" -> /\ pc' = [pcs EXCEPT ![p] = "exit.done"]
+    [] kind = "exit" -> /\ pc' = [pcs EXCEPT ![p] = IF ClosePanics /\ c \in Panics THEN "done" ELSE "exit.done"]
                         /\ tclosed' = [tclosed EXCEPT ![c] = @ + 1]          \* consumer.Close()
     [] kind = "join" -> /\ pc' = [pcs EXCEPT ![p] = "done", ![G(c)] = SpawnPc(cf)]   \* go c.consume()
                         /\ tclosed' = tclosed
@@ -311,7 +321,7 @@ CloseFlag(p, kind) ==      \* kind: "stop" | "exit" | "join"
 ConsExit(c) ==
   /\ pc[G(c)] = "exit.begin"
   /\ RemoveLoad(G(c), c,
-        /\ pc' = [pc EXCEPT ![G(c)] = "exit.done"]
+        /\ pc' = [pc EXCEPT ![G(c)] = IF ClosePanics /\ c \in Panics THEN "done" ELSE "exit.done"]
         /\ tclosed' = [tclosed EXCEPT ![c] = @ + 1]
         /\ UNCHANGED <<count, closedF, q, gitem>>)
   /\ Step(G(c))
@@ -326,8 +336,9 @@ ConsDone(c) ==
                  tclosed, cached, sentAll, lo, hi, stopLate, withheld>>
 
 (* ---- stop:c : Stream.StopConsume(cid) from another goroutine ----------------- *)
+(* the id passed to StopConsume is the one StartConsume returned, so a stop cannot begin earlier *)
 StopStart(c) ==
-  /\ pc[S(c)] = "start"
+  /\ pc[S(c)] = "start" /\ pc[J(c)] = "done"
   /\ stopLate' = [stopLate EXCEPT ![c] = (pc[J(c)] = "done")]
   /\ RemoveLoad(S(c), c,
         /\ pc' = [pc EXCEPT ![S(c)] = "done"]
@@ -339,14 +350,15 @@ StopStart(c) ==
 (* ---- closer: Stream.close -> RemoveAndCloseAll ------------------------------- *)
 CloseStart ==
   /\ pc["closer"] = "start"
-  /\ IF status # "ok" THEN pc' = [pc EXCEPT !["closer"] = "done"] /\ status' = status
+  /\ IF status # "ok" \/ (Replace /\ count > 0)
+     THEN pc' = [pc EXCEPT !["closer"] = "done"] /\ status' = status
      ELSE status' = "closed" /\ pc' = [pc EXCEPT !["closer"] = "close.marked"]
   /\ Step("closer")
   /\ UNCHANGED <<cache, map, count, q, closedF, disc, gitem, lk, pi, prange, crange, cur, delivered,
                  tclosed, cached, sentAll, lo, hi, stopLate, withheld>>
 (* close.marked -> (ts muxer, flv consumers: none here) -> sweep.zero of the flv set *)
 CloseFlvSweep ==
-  /\ pc["closer"] = "close.marked"
+  /\ pc["closer"] = "close.marked" /\ Media # "flv"
   /\ pc' = [pc EXCEPT !["closer"] = "sweep.zero.flv"]
   /\ Step("closer")
   /\ UNCHANGED <<status, cache, map, count, q, closedF, disc, gitem, lk, pi, prange, crange, cur, delivered,
@@ -364,7 +376,7 @@ SweepNext(pcs, rest) ==
        /\ cur' = [cur EXCEPT !["closer"] = Head(r)]
        /\ pc' = [pcs EXCEPT !["closer"] = "sweep.one"]
 CloseRange ==
-  /\ pc["closer"] = "sweep.zero.flv"
+  /\ pc["closer"] = (IF Media = "flv" THEN "close.marked" ELSE "sweep.zero.flv")   \* the FLV set is swept first
   /\ \E order \in Orders(map) : SweepNext(pc, order)
   /\ Step("closer")
   /\ UNCHANGED <<status, cache, q, closedF, disc, gitem, lk, pi, prange, delivered,
@@ -394,9 +406,16 @@ SweepZero ==
   /\ pc["closer"] = "sweep.zero"
   /\ count' = IF FixCount THEN count ELSE 0
   /\ cache' = EmptyCache
-  /\ pc' = [pc EXCEPT !["closer"] = "done"]
+  /\ pc' = [pc EXCEPT !["closer"] = IF Media = "flv" THEN "sweep.zero.rtp" ELSE "done"]
   /\ Step("closer")
   /\ UNCHANGED <<status, map, q, closedF, disc, gitem, lk, pi, prange, crange, cur, delivered,
+                 tclosed, cached, sentAll, lo, hi, stopLate, withheld>>
+(* FLV mode: after the FLV set, Stream.close sweeps the (empty) RTP set *)
+SweepRtp ==
+  /\ pc["closer"] = "sweep.zero.rtp"
+  /\ pc' = [pc EXCEPT !["closer"] = "done"]
+  /\ Step("closer")
+  /\ UNCHANGED <<status, cache, map, count, q, closedF, disc, gitem, lk, pi, prange, crange, cur, delivered,
                  tclosed, cached, sentAll, lo, hi, stopLate, withheld>>
 
 Init ==
@@ -419,7 +438,7 @@ Next ==
                       \/ ConsPop(c) \/ ConsConsume(c) \/ ConsExit(c) \/ ConsDone(c)
                       \/ RemoveDelete(G(c), "exit") \/ CloseFlag(G(c), "exit")
   \/ \E c \in Stoppers : StopStart(c) \/ RemoveDelete(S(c), "stop") \/ CloseFlag(S(c), "stop")
-  \/ (WithCloser /\ (CloseStart \/ CloseFlvSweep \/ CloseRange \/ SweepClose \/ SweepFlag \/ SweepZero))
+  \/ (WithCloser /\ (CloseStart \/ CloseFlvSweep \/ CloseRange \/ SweepClose \/ SweepFlag \/ SweepZero \/ SweepRtp))
 
 Spec == Init /\ [][Next]_vars
 
